@@ -533,3 +533,57 @@ func ZZ_C09_writer() {
 		zz.Assert(!has(evil), "subject is not overridden by a session extra")
 	}
 }
+
+// ZZ_C09_truth_unlimited: refresh tokens without expiry (RefreshTokenLifespan = -1, server-wide or for the
+// client only). The inspected string is the genuine refresh token or a string that keeps the stored
+// signature of the live refresh token under another key part; any hint, any age.
+func ZZ_C09_truth_unlimited() {
+	perClient := zz.Choice("unlimited-for", 2) == 1
+	w := world.NewX(world.XOptions{Tweak: func(cfg *fosite.Config) {
+		if !perClient {
+			cfg.RefreshTokenLifespan = -1
+		}
+	}})
+	if perClient {
+		never := time.Duration(-1)
+		w.Store.Clients["c1"] = &fosite.DefaultClientWithCustomTokenLifespans{DefaultClient: w.Store.Clients["c1"].(*fosite.DefaultClient),
+			TokenLifespans: &fosite.ClientLifespanConfig{AuthorizationCodeGrantRefreshTokenLifespan: &never, RefreshTokenGrantRefreshTokenLifespan: &never}}
+	}
+	code, err := w.AuthorizeCodeSession("c1", []string{"offline", "photos"}, []string{aud}, world.NewSession("peter"))
+	zz.Assume(err == nil)
+	resp, err := w.Redeem("c1", code)
+	zz.Assume(err == nil)
+	if zz.Choice("rotated", 2) == 1 {
+		resp, err = w.Refresh("c1", world.RefreshTokenOf(resp))
+		zz.Assume(err == nil)
+	}
+	at, rt := resp.GetAccessToken(), world.RefreshTokenOf(resp)
+	zz.Assume(rt != "")
+	zz.Advance(time.Duration(zz.Int("advance", 0, int64(400*24*time.Hour))))
+	val, genuine := rt, true
+	switch zz.Choice("inspected", 3) {
+	case 1: // the access token's key part in front of the refresh token's signature
+		val, genuine = "ory_rt_"+world.KeyOf(at)[len("ory_at_"):]+"."+world.SigOf(rt), false
+	case 2: // the refresh token's own key part with its first character changed (other leading bits)
+		k := world.KeyOf(rt)[len("ory_rt_"):]
+		first := "A"
+		if k[:1] == "A" {
+			first = "B"
+		}
+		val, genuine = "ory_rt_"+first+k[1:]+"."+world.SigOf(rt), false
+	}
+	hint := zz.String("hint", 14)
+	active, use, ar := w.IntrospectFull(val, fosite.TokenUse(hint))
+	zz.Observe("active", active)
+	if genuine {
+		zz.Cover("unlimited:genuine-active", true)
+		zz.Assert(active, "a refresh token without expiry is reported active at any age")
+		if active {
+			zz.Assert(use == fosite.RefreshToken, "reported token use is the real kind")
+			zz.Assert(ar.GetClient().GetID() == "c1" && ar.GetSession().GetSubject() == "peter", "reported client and subject are the real ones")
+		}
+	} else {
+		zz.Cover("unlimited:forged-inactive", true)
+		zz.Assert(!active, "a string that only shares the stored signature of a live refresh token is reported inactive")
+	}
+}
